@@ -1,4 +1,10 @@
+"""C03: exactly-once resumption, start order, termination - program simulation plus parametric
+deep shapes (chains tens of thousands of tasks deep, wide trees, request staircases)."""
 from ._prog import ProgProp
+from .. import real
+from ..prog import SimError, HarnessError
+
+A = real.A
 
 
 class C03(ProgProp):
@@ -6,6 +12,157 @@ class C03(ProgProp):
     report = ("C03", "MODEL")
     cfg = {"p_sync": 0.06, "p_try": 0.06, "p_fault": 0.08, "p_create": 0.3, "p_ref": 0.3, "p_container": 0.45,
            "item_faults": 0.03}
+
+    def gen(self, rng, tier, k):
+        if k % 8 == 7:
+            shape = rng.choice(["chain", "chain", "chain", "tree", "staircase"])
+            big = tier == "thorough" or rng.random() < 0.25
+            if shape == "chain":
+                n = rng.choice([1200, 3000, 12000, 50000]) if big else rng.choice([50, 400, 1100, 2500])
+            elif shape == "tree":
+                n = rng.choice([(2, 12), (3, 8), (10, 4)]) if big else rng.choice([(2, 6), (3, 4), (5, 3)])
+            else:
+                n = rng.choice([200, 600]) if big else rng.choice([5, 40, 120])
+            return {"deep": shape, "n": n, "leaf": rng.choice(["value", "item", "error"]),
+                    "catch_at": rng.choice([None, None, 0, 1, 7]), "conv": rng.choice(["call", "value"]),
+                    "shared": rng.random() < 0.3}
+        return ProgProp.gen(self, rng, tier, k)
+
+    def sample(self, case, r):
+        if "deep" in case:
+            return case
+        return ProgProp.sample(self, case, r)
+
+    def run(self, case, build):
+        if "deep" in case:
+            return self._run_deep(case)
+        return ProgProp.run(self, case, build)
+
+    def _run_deep(self, case):
+        real.reset_world()
+        spec = {"templates": [{"kind": "fn", "steps": []}], "root": {"tmpl": 0}, "kinds": 1, "svs": 1, "faults": {}, "prio": {}}
+        B = real.RealBackend(spec, ())
+        B.setup()
+        out = []
+        shape = case.get("deep")
+        leaf = case.get("leaf", "value")
+        catch_at = case.get("catch_at")
+        starts = {}
+        resumes = {}
+        nitem = [0]
+        boom = SimError("bottom")
+
+        def item():
+            nitem[0] += 1
+            return real.SimItem(B.current[0], "d.i%d" % nitem[0], "k", B)
+
+        def mark_start(key):
+            starts[key] = starts.get(key, 0) + 1
+
+        def check_resume(key, fut):
+            resumes[key] = resumes.get(key, 0) + 1
+            if not fut.is_computed():
+                out.append(("resumed-while-uncomputed", "level %r resumed while the task it awaits is not computed" % (key,)))
+        expected = None
+        expected_flushes = None
+        total = None
+        try:
+            if shape == "chain":
+                n = int(case.get("n", 10))
+
+                @A.asynq()
+                def chain(i):
+                    mark_start(i)
+                    if i == 0:
+                        if leaf == "item":
+                            v = yield item()
+                            return 0
+                        if leaf == "error":
+                            raise boom
+                        return 0
+                    child = chain.asynq(i - 1)
+                    try:
+                        v = yield child
+                    except SimError:
+                        check_resume(i, child)
+                        if catch_at is not None and i == min(catch_at, n):
+                            return -1000000
+                        raise
+                    check_resume(i, child)
+                    return v + 1
+                total = n + 1
+                if leaf == "error":
+                    expected = ("V", -1000000 + (n - min(catch_at, n))) if catch_at is not None and min(catch_at, n) >= 1 else ("E", boom)
+                else:
+                    expected = ("V", n)
+                expected_flushes = 1 if leaf == "item" else 0
+                thunk = (lambda: chain(n)) if case.get("conv") == "call" else (lambda: chain.asynq(n).value())
+            elif shape == "tree":
+                fan, depth = case.get("n", (2, 3))
+
+                @A.asynq()
+                def tree(d, path):
+                    mark_start(path)
+                    if d == 0:
+                        if leaf == "item":
+                            yield item()
+                        return 1
+                    kids = [tree.asynq(d - 1, path + (j,)) for j in range(fan)]
+                    vals = yield (kids if len(path) % 2 else tuple(kids))
+                    for kf in kids:
+                        if not kf.is_computed():
+                            out.append(("resumed-while-uncomputed", "tree node %r resumed before all children computed" % (path,)))
+                    resumes[path] = resumes.get(path, 0) + 1
+                    return sum(vals)
+                total = sum(fan ** i for i in range(depth + 1))
+                expected = ("V", fan ** depth)
+                expected_flushes = 1 if leaf == "item" else 0
+                thunk = lambda: tree(depth, ())
+            else:
+                n = int(case.get("n", 5))
+
+                @A.asynq()
+                def stair(i):
+                    mark_start(i)
+                    v = yield item()
+                    if i == 0:
+                        return 0
+                    child = stair.asynq(i - 1)
+                    w = yield child
+                    check_resume(i, child)
+                    return w + 1
+                total = n + 1
+                expected = ("V", n)
+                expected_flushes = n + 1
+                thunk = lambda: stair(n)
+            try:
+                got = ("V", thunk())
+            except SimError as e:
+                got = ("E", e)
+        except HarnessError:
+            raise
+        except BaseException as e:
+            got = ("X", "%s: %s" % (type(e).__name__, str(e)[:150]))
+        if not out:
+            if got[0] != expected[0] or (got[0] == "V" and got[1] != expected[1]) or (got[0] == "E" and got[1] is not expected[1]):
+                out.append(("deep-outcome", "%s of %r with a %s at the bottom gave %r, expected %r" % (shape, case.get("n"), leaf, got, expected)))
+            elif len(starts) != total or any(c != 1 for c in starts.values()):
+                out.append(("deep-started-once", "%d of %d tasks started; start counts other than 1: %r"
+                            % (len(starts), total, [k for k, c in starts.items() if c != 1][:3])))
+            elif any(c != 1 for c in resumes.values()):
+                out.append(("deep-resumed-once", "levels resumed other than exactly once: %r" % ([k for k, c in resumes.items() if c != 1][:3],)))
+            elif len([f for f in B.flushes if f["sched"]]) != expected_flushes:
+                out.append(("deep-flushes", "%s performed %d flushes, expected %d" % (shape, len(B.flushes), expected_flushes)))
+            sch = A.scheduler.get_scheduler()
+            if len(sch._tasks):
+                out.append(("deep-residue", "%d tasks left on the scheduler" % len(sch._tasks)))
+        B.teardown()
+        real.reset_world()
+        sig = "deep:" + repr(sorted(case.items()))
+        return {"violations": out[:3], "stats": {"events": total or 0, "flushes": len(B.flushes), "tasks": total or 0,
+                                                 "probes": {"deep_" + str(shape): 1, "deep_tasks_ge_10000": 1 if (total or 0) >= 10000 else 0,
+                                                            "deep_beyond_recursion_limit": 1 if shape == "chain" and (total or 0) > 1000 else 0}},
+                "sig": sig, "nontrivial": True, "digest": sig + repr(got[0])}
 
 
 PROP = C03()
